@@ -24,14 +24,15 @@ EXTENDS Integers, FiniteSets, Sequences, TLC
 CONSTANTS Part,        \* partition identifiers 1..P
           Owners,      \* owner identifiers
           PIdent, PSizes, PLookbacks, PTimes,
-          Capacity,    \* PartitionRingOptions.ShuffleShardCacheSize: 0 = unbounded map, > 0 = LRU
+          Capacities,  \* values of PartitionRingOptions.ShuffleShardCacheSize: 0 = unbounded map, > 0 = LRU
           PMaxUpd,
           PStates, PStamps, PToks,
           PCompute(_, _, _, _, _)    \* (desc, id, size, L, W) -> set of partitions in the subring
 
-VARIABLES pdesc, ring, pc, lc, pu, lu, pnupd
+VARIABLES pdesc, ring, pc, lc, pu, lu, pnupd,
+          cap     \* the watcher's PartitionRingOptions.ShuffleShardCacheSize (never changes)
 
-pvars == <<pdesc, ring, pc, lc, pu, lu, pnupd>>
+pvars == <<pdesc, ring, pc, lc, pu, lu, pnupd, cap>>
 
 None    == <<>>
 Some(x) == <<x>>
@@ -94,12 +95,12 @@ PKeys == PIdent \X PSizes
 LKeys == PIdent \X PSizes \X PLookbacks
 
 Without(s, k) == SelectSeq(s, LAMBDA x : x # k)
-Touch(s, k)   == IF Capacity = 0 THEN s ELSE Without(s, k) \o <<k>>      \* lru Get / Add: most recent last
+Touch(s, k)   == IF cap = 0 THEN s ELSE Without(s, k) \o <<k>>      \* lru Get / Add: most recent last
 
-\* set(key, v): the cache and the recency order after an Add (evicts the oldest beyond Capacity)
+\* set(key, v): the cache and the recency order after an Add (evicts the oldest beyond cap)
 AddTo(c, u, k, v) ==
     LET u2 == Touch(u, k)
-        ev == IF Capacity > 0 /\ Len(u2) > Capacity THEN {u2[1]} ELSE {}
+        ev == IF cap > 0 /\ Len(u2) > cap THEN {u2[1]} ELSE {}
     IN [c |-> [x \in DOMAIN c |-> IF x = k THEN Some(v) ELSE IF x \in ev THEN None ELSE c[x]],
         u |-> IF ev = {} THEN u2 ELSE Tail(u2)]
 
@@ -127,7 +128,7 @@ PInitDescs == {NoPDesc}
 
 PInit == /\ pdesc \in PInitDescs /\ ring = pdesc
          /\ pc = EmptyPC /\ lc = EmptyLC /\ pu = <<>> /\ lu = <<>>
-         /\ pnupd = 0
+         /\ pnupd = 0 /\ cap \in Capacities
 
 (* PartitionRingWatcher.updatePartitionRing: a new PartitionRing (and a new, empty cache) *)
 PUpdate(d) ==
@@ -136,6 +137,7 @@ PUpdate(d) ==
     /\ pdesc' = d
     /\ ring' = d
     /\ pc' = EmptyPC /\ lc' = EmptyLC /\ pu' = <<>> /\ lu' = <<>>
+    /\ UNCHANGED cap
 
 (* PartitionRing.ShuffleShard *)
 PQueryPlain(id, size) ==
@@ -144,7 +146,7 @@ PQueryPlain(id, size) ==
        THEN /\ pu' = Touch(pu, k) /\ UNCHANGED pc
        ELSE LET a == AddTo(pc, pu, k, SubDesc(ring, PCompute(ring, id, size, 0, 0)))
             IN pc' = a.c /\ pu' = a.u
-    /\ UNCHANGED <<pdesc, ring, lc, lu, pnupd>>
+    /\ UNCHANGED <<pdesc, ring, lc, lu, pnupd, cap>>
 
 (* PartitionRing.ShuffleShardWithLookback *)
 PQueryLb(id, size, L, now) ==
@@ -159,7 +161,7 @@ PQueryLb(id, size, L, now) ==
                THEN LET a == AddTo(lc, u1, k, [m |-> m, va |-> W, vb |-> PValidBefore(m, W)])
                     IN lc' = a.c /\ lu' = a.u
                ELSE lc' = lc /\ lu' = u1
-    /\ UNCHANGED <<pdesc, ring, pc, pu, pnupd>>
+    /\ UNCHANGED <<pdesc, ring, pc, pu, pnupd, cap>>
 
 PUpdEqual  == PUpdate(pdesc)
 PUpdState  == \E p \in DOMAIN pdesc.parts, s \in PStates, t \in PStamps :
@@ -187,8 +189,8 @@ PSpec == PInit /\ [][PNext]_pvars
 (* ----------------------------------------------------------------------- *)
 PTypeOK == /\ DOMAIN pdesc.parts \subseteq Part
            /\ \A p \in DOMAIN pdesc.parts : pdesc.parts[p] \in PRec
-           /\ Capacity > 0 => Len(pu) <= Capacity /\ Len(lu) <= Capacity
-           /\ Capacity > 0 => /\ {k \in PKeys : pc[k] # None} = {pu[j] : j \in 1..Len(pu)}
+           /\ cap > 0 => Len(pu) <= cap /\ Len(lu) <= cap
+           /\ cap > 0 => /\ {k \in PKeys : pc[k] # None} = {pu[j] : j \in 1..Len(pu)}
                               /\ {k \in LKeys : lc[k] # None} = {lu[j] : j \in 1..Len(lu)}
 
 (* every direct answer (ActivePartitionForKey, the counters, owners, token ranges,
